@@ -14,36 +14,51 @@ import math
 import numpy as np
 
 BOUNDS = (
-    "Background2D: 12x12 (box 4, 3x3 mesh, no excluded box) and 13x11 (box 4, padded, excluded edge "
-    "boxes) float64 images [thorough: also float32/int32/Quantity/NDData/NaN data], filter_threshold in "
-    "{None, mid (selective), low (< min mesh)}, filter_size in {1,3}, BkgZoomInterpolator / "
-    "BkgIDWInterpolator, masks in {none, mask, coverage_mask(fill_value=-1.5), both}; histories: all "
-    "ordered selections of 4 distinct reads out of the 6 core attributes (background, background_rms, "
-    "background_mesh, background_rms_mesh, background_median, background_rms_median) and all ordered "
-    "pairs [thorough: triples] out of all 11 public data attributes; every prefix is checked, the first "
-    "read is repeated at the end, earlier returned arrays are re-checked for later mutation; exact "
-    "comparison. Profiles: RadialProfile (5 edges) / CurveOfGrowth (4 radii) on a 15x15 image, with / "
-    "without error, mask, NaN pixel, Quantity data; all words of length <= 3 (quick; one config 4) / "
-    "<= 4 (thorough; one config 5) over {normalize('max'), normalize('sum'), unnormalize, profile, "
-    "profile_error, data_profile|calc_ee_at_radius, normalization_value|calc_radius_at_ee} followed by "
-    "a final read of everything; values vs raw/prod(normalisations) rtol 1e-12, type/unit vs a fresh "
-    "object that applies only the mutators. Apertures: 6 pixel aperture classes, words of length <= 3 "
-    "(thorough 4) over {assign each attribute to an alternative value (positions: 2-row and 1-row "
-    "arrays; theta: float and Quantity)} U {bbox, area, shape, isscalar, to_mask exact/center, "
-    "do_photometry} that end in a read preceded by an assignment; exact. PSFPhotometry: grouper x "
-    "localbkg_estimator lattice (4 configs), 6 requests (xy init, init with group_id+flux, finder, "
-    "mask+error+local_bkg, Quantity, no-detection image), all call sequences of length <= 2 (quick; "
-    "<= 3 over 3 requests on the full config) / <= 3 (thorough); IterativePSFPhotometry modes new/all, "
-    "maxiters 2, sequences <= 2 over 3 requests (thorough <= 3 over 4); tables, fit_info, init/fit "
-    "params, finder_results, model/residual images compared rtol 1e-12. Star finders: DAOStarFinder "
-    "(2 configs), IRAFStarFinder, StarFinder (float and integer kernel): all call sequences <= 3 over "
-    "5 inputs (two shapes, mask, flat image, negated image); exact. Ellipse: 32x32 galaxy, caller "
-    "EllipseGeometry and default geometry, variants {plain, fix_center, fix_pa, fix_eps, linear=True}, "
-    "ordered pairs (quick) / all sequences <= 3 (thorough) plus fit_isophote; isophote arrays rtol "
-    "1e-12 and geometry configuration unchanged. GriddedPSFModel: 2x2 grid of 7x7 PSFs, targets "
-    "{orig, copy(), deepcopy()} x 5 positions, sequences <= 2 (+ length 3 on orig/copy) / <= 3; exact. "
-    "LocalBackground: 5 position requests (scalar, 1/2/3-element arrays, with mask), sequences <= 3; "
-    "exact.")
+    "Background2D: 12x12 (box 4, 3x3 mesh, no excluded box; masks none/cov) and 13x11 (box 4, padded, "
+    "excluded edge boxes; masks mask/both) float64 images [thorough: both shapes, plus float32 / int32 / "
+    "Quantity / NDData / NaN data], exclude_percentile 60, filter_threshold in {None, mid (selective "
+    "filter touches one box), low (< min mesh)}, filter_size in {1,3}, BkgZoomInterpolator (full "
+    "lattice) / BkgIDWInterpolator (quick: 4 configs; thorough: full), masks in {none, mask, "
+    "coverage_mask (fill_value=-1.5), both}. Histories of reads: on the main configs (zoom, mid, "
+    "filter 3) all 360 ordered selections of 4 distinct reads out of the 6 core attributes "
+    "(background, background_rms, background_mesh, background_rms_mesh, background_median, "
+    "background_rms_median) and all 110 ordered pairs of the 11 public data attributes (thorough: all "
+    "990 ordered triples); on every other config all 24 orders of the 4 map/mesh attributes (thorough: "
+    "the 360 4-selections on zoom configs with mid threshold or filter 3, else 24 + the 120 ordered "
+    "triples of core attributes; pairs on all zoom configs). Every prefix is checked, the first read "
+    "is repeated at the end, arrays returned earlier are re-checked for later mutation; exact "
+    "comparison. Profiles: RadialProfile (5 edges) / CurveOfGrowth (4 radii), 15x15 image, configs "
+    "{error+mask+NaN pixel, Quantity data, no error + center method, all-zero data, negative data}; "
+    "all words of length <= 3 (main and RadialProfile-Quantity configs; <= 2 elsewhere) [thorough <= 4 "
+    "/ <= 3] over {normalize('max'), normalize('sum'), unnormalize, profile, profile_error, "
+    "data_profile | calc_ee_at_radius, normalization_value | calc_radius_at_ee}, plus words of length "
+    "4 [thorough 5] over {normalize('max'), unnormalize, profile, data_profile | ee} on the main "
+    "config, each followed by a read of every public array; values vs raw / product of "
+    "normalisations with rtol 1e-12, type / unit vs a fresh object that applies only the mutators. "
+    "Apertures: the 6 pixel aperture classes, words of length <= 3 (thorough 4) over {assign each "
+    "attribute to an alternative value (positions: 2-row and 1-row arrays; theta: float and Quantity)} "
+    "U {bbox, area, shape, isscalar, to_mask exact / center, do_photometry} that end in a read preceded "
+    "by an assignment; exact; stored attribute values checked. PSFPhotometry: grouper x "
+    "localbkg_estimator (4 configs), requests {xy init, init with group_id+flux, finder, "
+    "mask+error+local_bkg, Quantity, no-detection image}; quick: all sequences <= 2 over the 6 requests "
+    "+ length 3 over {gid, xy} on the full config, <= 2 over 3 requests on the others; thorough: all <= 2 "
+    "and length 3 over 6 (full config) / 4 requests. IterativePSFPhotometry modes new / all, maxiters 2, "
+    "sequences <= 2 over 3 requests (thorough: 4 configs, <= 3 over 4). Result tables, fit_info, init / "
+    "fit params, finder_results, model and residual images compared with rtol 1e-12; constructor "
+    "objects (grouper, localbkg_estimator, finder) must stay bound. Star finders: DAOStarFinder (2 "
+    "configs), IRAFStarFinder, StarFinder (float and integer kernel), inputs {image A, image B of "
+    "another shape, A with mask, flat image, negated image}; quick: sequences <= 3 over 4 inputs (dao, "
+    "sf) and <= 2 over 5 (others); thorough: <= 3 over 5; exact; StarFinder.kernel unchanged. Ellipse: "
+    "32x32 galaxy, caller EllipseGeometry and default geometry, variants {plain, fix_center, fix_pa, "
+    "fix_eps, linear=True, fit_isophote}; quick: singles + the 20 ordered pairs of distinct fit_image "
+    "variants (caller geometry) + 4 pairs (default geometry); thorough: all sequences <= 3; isophote "
+    "arrays rtol 1e-12 and geometry fields (x0, y0, sma, eps, pa, astep, linear_growth, fix) "
+    "unchanged. GriddedPSFModel: 2x2 grid of 7x7 PSFs (oversampling 1 / 2), steps = {orig, copy(), "
+    "deepcopy()} x 5 positions x {set parameters + call, evaluate()}: all sequences <= 2 (+ length 3 "
+    "over a 6-step subset; thorough over a 16-step subset); exact; parameters of the original must "
+    "not follow evaluations on copies. LocalBackground: 5 position requests (scalar, 1 / 2 / 3-element "
+    "arrays, with mask), median and mean estimators, all sequences <= 3; exact vs fresh object and "
+    "1e-12 vs a pixel-loop oracle.")
 RULE = (
     "Exhaustive enumeration of histories (words over the per-class alphabet of reads/assignments/"
     "calls) up to the stated length on each configuration of the lattice; the only random part is the "
@@ -321,7 +336,7 @@ def _bkg_cases(ctx, dseed):
                                                              or masks in ('none', 'both')):
                         continue      # quick: IDW (slow full-size maps) only on 4 configurations
                     shape = 'exact' if masks in ('none', 'cov') else 'pad'
-                    shapes = ('exact', 'pad') if thorough else (shape,)
+                    shapes = ('exact', 'pad') if thorough and interp == 'zoom' else (shape,)
                     for sh in shapes:
                         cfgs.append({'thr': thr, 'fs': fs, 'interp': interp, 'masks': masks,
                                      'shape': sh, 'dk': 'f8'})
@@ -343,12 +358,17 @@ def _bkg_cases(ctx, dseed):
     for cfg in cfgs:
         zoom, f8 = cfg['interp'] == 'zoom', cfg['dk'] == 'f8'
         main = zoom and f8 and cfg['thr'] == 'mid' and cfg['fs'] == 3
-        if not thorough:
-            main = main and cfg['masks'] in ('none', 'both')
         if thorough:
-            seqs = list(perm4) if zoom else perm4_maps + perm3
-            seqs += triples if main and cfg['shape'] == 'pad' else pairs
+            if zoom and (cfg['thr'] == 'mid' or (f8 and cfg['fs'] == 3)):
+                seqs = list(perm4)
+            else:
+                seqs = perm4_maps + perm3
+            if main and cfg['shape'] == 'pad':
+                seqs += triples
+            elif zoom:
+                seqs += pairs
         else:
+            main = main and cfg['masks'] in ('none', 'both')
             seqs = perm4 + pairs if main else list(perm4_maps)
         for seq in seqs:
             yield {'sec': 'bkg', 'cfg': cfg, 'seq': list(seq), 'dseed': dseed}
